@@ -40,6 +40,12 @@ func run(c *fw.Ctx) error {
 		if behs, err = gorun.Generate(c, "SPECIFICATION SpecWit\nCONSTANTS Profile = \"core\" Pinned = TRUE "+invs, false, 1, 0, 0); err != nil {
 			return err
 		}
+		// directed families: loop variables x writers x observers, switch clause orders
+		fam, err := gorun.Generate(c, "SPECIFICATION SpecLoopFam\nCONSTANTS Profile = \"core\" Pinned = TRUE "+invs, false, 1, 0, 0)
+		if err != nil {
+			return err
+		}
+		behs = append(behs, fam...)
 		sim, err := gorun.Generate(c, "SPECIFICATION SpecSim\nCONSTANTS Profile = \"core\" Pinned = FALSE "+invs, true, c.Pick(6, 14), c.Pick(8, 60), 50)
 		if err != nil {
 			return err
